@@ -10,7 +10,7 @@ COMMON_TRUSTED = [
 ]
 
 VOC_ASSUMED = [
-    'abstract vocoder contract (contracts/verus/vocoder_abs.inc): Vocoder::synthesize is a deterministic function of (state, lf0, spectrum, lpf), writes exactly rawdata[0..fperiod], panic-free under shape_ok; backed by a bounded Kani frame check and a no-hidden-state scan, not proved',
+    'abstract vocoder contract (contracts/verus/vocoder_abs.inc): Vocoder::synthesize is a deterministic function of (state, lf0, spectrum, lpf), writes exactly rawdata[0..fperiod], panic-free under shape_ok: ASSUMED, not proved. Determinism is backed only by a syntactic scan of src/vocoder (no unsafe / static / interior mutability / randomness / time); the frame and panic-freedom are NOT checked: Vocoder::synthesize exceeds 12 GB under CBMC even with the excitation and libm stubbed',
     'axiom_voc_out_len / axiom_voc_next_cfg: definitional axioms on the uninterpreted voc_out / voc_next',
 ]
 
@@ -26,6 +26,7 @@ NOT_APPLICABLE = {
 
 PROPS = {
     'C02': {
+        'scans': ['vocoder_no_hidden_state'],
         'technique': 'Verus contracts on the extracted text of SpeechGenerator::{new,generate_step,generate_all,synthesized_frames}; history induction as proof fns over those postconditions',
         'level_text': 'unbounded deductive proof (Verus/z3) that any history of steps plus finish concatenates to the one-shot waveform, for every frame count, buffer size and cursor position, relative to an abstract deterministic vocoder',
         'level_note': 'assumes the abstract vocoder contract (deterministic function of its state and arguments, writes exactly rawdata[0..fperiod]); frames*fperiod fits usize; rewrites R1,R2,R3,R5,R10',
@@ -117,6 +118,7 @@ PROPS = {
         'not_decided': ['log-F0 of every voiced FRAME shifts by h*ln2/12 after MLPG (holds in exact arithmetic only)', 'HALF_TONE is the double nearest ln2/12 (ground computation, not a proof)'],
     },
     'C01': {
+        'scans': ['vocoder_no_hidden_state'],
         'technique': 'Verus contracts on the extracted text of SpeechGenerator, DurationEstimator and Engine::{generator,synthesize}; Kani harnesses for hole contracts and MlpgAdjust::create shapes',
         'level_text': 'unbounded proof of no-panic and exact length (fperiod x sum of state durations), every state >= 1 frame, every label contributes all states, empty -> empty, for 2- and 3-stream voices, relative to the assumed contracts of Models / MlpgAdjust / Vocoder; those contracts are bounded-checked by Kani where stated',
         'level_note': 'finiteness / "NaN only after runaway growth" is NOT decided (IIR stability in floating point); Vocoder::synthesize panic-freedom under shape_ok, Models::duration length and MlpgAdjust::create shape are assumed in Verus and only bounded-checked; usize overflow of frame totals excluded by precondition',
